@@ -1,14 +1,18 @@
 #!/bin/bash
-# refactor_audit.sh <dir-with-variants> : runs all claimed checks against behaviour-preserving
+# refactor_audit.sh [-j N] <dir-with-variants> : runs all claimed checks against behaviour-preserving
 # patches (each in <dir>/<variant>/patch.diff) on scratch copies; any VIOLATION is a false alarm.
 set -u
 VERIF=$(cd "$(dirname "$0")/.." && pwd)
+jobs=6
+if [ "${1:-}" = "-j" ]; then jobs=$2; shift 2; fi
 dir=$1
 props=$(python3 -c "import json;print(' '.join(c['property_id'] for c in json.load(open('$VERIF/MANIFEST.json'))['checks']))")
-for v in $(ls "$dir"); do
-  [ -f "$dir/$v/patch.diff" ] || continue
-  out=$("$VERIF/bin/mutcheck" "$dir/$v/patch.diff" $props 2>&1)
+one() {
+  v=$1
+  out=$(MUTLINES=400 "$VERIF/bin/mutcheck" "$dir/$v/patch.diff" $props 2>&1)
   alarms=$(echo "$out" | grep -c "^VIOLATION")
   echo "== $v alarms=$alarms"
   echo "$out" | grep "violated/\|undecided/\|ERROR\|SKIP" | cut -c1-330
-done
+}
+export -f one; export VERIF dir props
+ls "$dir" | while read v; do [ -f "$dir/$v/patch.diff" ] && echo "$v"; done | xargs -P "$jobs" -I{} bash -c 'one {}' 
